@@ -455,6 +455,15 @@ fn tex_path(rng: &mut Rng) -> Vec<u8> {
             v.push(rng.range(1, 0x7F) as u8); // any non-NUL ASCII, including control characters
         }
     }
+    if rng.chance(1, 8) {
+        // bytes from 0x80 on (a heap byte is one Latin-1 character of the reported path, two bytes
+        // of its UTF-8): anywhere in the path, 1..6 of them
+        let k = rng.range(1, 6);
+        for _ in 0..k {
+            let at = rng.below(v.len() as u64 + 1) as usize;
+            v.insert(at, *rng.pick(&[0x80u8, 0x81, 0xa0, 0xbf, 0xc0, 0xc3, 0xe9, 0xfe, 0xff]));
+        }
+    }
     v.extend_from_slice(b".tex");
     v
 }
@@ -544,6 +553,10 @@ fn gen_mtrl(rng: &mut Rng, sweep: Option<u32>, w: &MtrlWide) -> String {
     rest.extend_from_slice(rng.pick(&SHPK).as_bytes());
     if rng.chance(1, 10) {
         rest.extend(ident(rng));
+    }
+    if rng.chance(1, 12) {
+        rest.push(*rng.pick(&[0x80u8, 0xbf, 0xc3, 0xe9, 0xff]));
+        rest.extend_from_slice(b"x");
     }
     rest.push(0);
     let pad = rng.below(5) as usize;
